@@ -51,6 +51,8 @@ type Stream struct {
 	// elements) this stream may still contain; they are expensive, so only a
 	// few streams get one
 	longLeft int
+	// twins: a pair of strings that collide under a 32-bit hash (or nil)
+	twins []string
 
 	// Stats are generator-side labels (what was constructed), merged into the
 	// evidence labels by the checks.
@@ -77,7 +79,27 @@ func NewStream(t *rapid.T, k Knobs, nb int) *Stream {
 	if s.Rare("longcoll", 40) {
 		s.longLeft = 1
 	}
+	if s.Rare("hashtwins", 80) {
+		// both members of a pair of equal-length strings that collide under a
+		// well-known 32-bit hash become preferred keys and values of the stream
+		s.twins = HashTwins[rapid.IntRange(0, len(HashTwins)-1).Draw(t, "twinpair")]
+		s.Stats["keys_colliding_under_a_32bit_hash"]++
+	}
 	return s
+}
+
+// HashTwins are pairs of distinct strings of equal length with the same
+// 32-bit digest under FNV-1a, FNV-1, CRC-32 (IEEE), Adler-32, Java's
+// 31-polynomial and djb2 (found by brute force, verified in
+// TestHashTwinsCollide): the hostile constants for anything that memoises,
+// interns or shards by a short digest of a string (seeded changes C17b, C16f).
+var HashTwins = [][]string{
+	{"key.0539599", "key.0722382"}, // FNV-1a 32
+	{"key.0720089", "key.1214000"}, // FNV-1 32
+	{"k.uejgtcuo", "k.iiwucoup"},   // CRC-32
+	{"key.0000020", "key.0000101"}, // Adler-32
+	{"key.Aa", "key.BB"},           // Java String.hashCode
+	{"key.ab", "key.bA"},           // djb2
 }
 
 // On reports whether an optional feature is active in the current batch. Each
@@ -168,6 +190,9 @@ func (s *Stream) nul(str string) string {
 }
 
 func (s *Stream) str0() string {
+	if len(s.twins) > 0 && rapid.IntRange(0, 7).Draw(s.T, "twinstr") == 0 {
+		return s.twins[rapid.IntRange(0, 1).Draw(s.T, "twin")]
+	}
 	switch k := rapid.IntRange(0, 11).Draw(s.T, "strk"); {
 	case k < 7:
 		return rapid.SampledFrom(HostileStrings).Draw(s.T, "hs")
@@ -197,6 +222,9 @@ var keyPool = []string{"k", "a", "b", "k2", "", "host", "x,y", "a:b", "K", "é",
 
 // Key draws an attribute key.
 func (s *Stream) Key() string {
+	if len(s.twins) > 0 && rapid.IntRange(0, 2).Draw(s.T, "twinkey") == 0 {
+		return s.twins[rapid.IntRange(0, 1).Draw(s.T, "twin")]
+	}
 	if rapid.IntRange(0, 9).Draw(s.T, "keyk") < 9 {
 		return s.nul(rapid.SampledFrom(keyPool).Draw(s.T, "key"))
 	}
